@@ -205,10 +205,14 @@ def entry_lines(draw, n_min=1, n_max=4, allow_auto=True):
 
 
 @st.composite
-def stores(draw, multi_alt=True):
-    """{"value": [lines] | None, "alt": [lines]}: the SocksPort / __SocksPort halves of the store."""
+def stores(draw, multi_alt=True, defaults=False):
+    """{"value": [lines] | None, "alt": [lines] [, "default": [lines]]}: the SocksPort / __SocksPort halves of
+    the store; with defaults=True also "SocksPort unset, but GETINFO config/defaults lists 1..2 SocksPort lines"
+    (the shape the repo's own fixtures use; the lines carry option words like a Tor-Browser torrc-defaults)."""
     kind = draw(st.sampled_from(["unset", "alt", "alt", "off", "auto", "set", "set", "set", "set", "set",
-                                 "set", "set"]))
+                                 "set", "set"] + (["default", "default"] if defaults else [])))
+    if kind == "default":
+        return {"value": None, "alt": [], "default": draw(entry_lines(1, 2, allow_auto=False))}
     if kind == "unset":
         return {"value": None, "alt": []}
     if kind == "alt":
@@ -222,7 +226,7 @@ def stores(draw, multi_alt=True):
 
 
 def store_lines(store):
-    return list(store["value"] or []) + list(store["alt"] or [])
+    return list(store["value"] or []) + list(store["alt"] or []) or list(store.get("default") or [])
 
 
 def _used(lines):
